@@ -146,7 +146,7 @@ func (m *Model) analyseStruct(op *spb.AFTOperation) (Validity, *Entry, string) {
 		e.Key = Key{NI: ni, Kind: KNH, ID: t.NextHop.GetIndex()}
 		e.Msg = t.NextHop
 		if !isDel && t.NextHop.NextHop == nil {
-			return Unspecified, e, "next-hop without payload"
+			return Invalid, e, "next-hop without payload"
 		}
 		return Valid, e, ""
 	case *spb.AFTOperation_NextHopGroup:
